@@ -25,3 +25,13 @@ func verifLemmaPhraseRoundTrip(phrase string) string {
 func verifLemmaExtendedPhraseRoundTrip(phrase string) string {
 	return ExtendedSeedBinToMnemonic(MnemonicToExtendedSeedBin(phrase))
 }
+
+// C09 (used by the recovery lemma functions of xmss and dilithium): the same two round trips, exported and with the
+// conclusion stated byte by byte.
+func VerifLemmaSeedRoundTrip(seed [common.SeedSize]uint8) [common.SeedSize]uint8 {
+	return MnemonicToSeedBin(SeedBinToMnemonic(seed))
+}
+
+func VerifLemmaExtendedSeedRoundTrip(eseed [common.ExtendedSeedSize]uint8) [common.ExtendedSeedSize]uint8 {
+	return MnemonicToExtendedSeedBin(ExtendedSeedBinToMnemonic(eseed))
+}
